@@ -54,7 +54,7 @@ def is_library_error(name):
 
 class Stack:
     """one real aiocoap context on the virtual loop, with scripted application code on both sides"""
-    def __init__(self, loop, name, slow_resolve=False):
+    def __init__(self, loop, name, ifaces=1, mi_mode="prompt"):
         import simnet
         from aiocoap import interfaces
         self.loop = loop; self.name = name
@@ -69,13 +69,15 @@ class Stack:
             async def needs_blockwise_assembly(self, request): return False
             async def render(self, request): raise NotImplementedError
             async def render_to_pipe(self, pipe): await stack._handler(pipe)
+        def route(rname): return 1 if (ifaces > 1 and rname.startswith("s")) else 0     # remotes s* live behind the second interface
+        self.route = route
         class MI(simnet.FakeMI):
-            shutdown_mode = "prompt"
+            shutdown_mode = mi_mode; idx = 0
             async def recognize_remote(self, r):
-                return isinstance(r, simnet.Addr) and not getattr(r, "unresolved", False)
+                return isinstance(r, simnet.Addr) and not getattr(r, "unresolved", False) and route(r.name) == self.idx
             async def determine_remote(self, m):
                 r = getattr(m, "remote", None)
-                if isinstance(r, simnet.Addr) and getattr(r, "unresolved", False):
+                if isinstance(r, simnet.Addr) and getattr(r, "unresolved", False) and route(r.name) == self.idx:
                     f = loop.create_future(); stack.resolving.append(f); stack.resolving_q[getattr(r, "q", None)] = f
                     await f                                                # name resolution in progress
                     a = simnet.Addr(r.name); return a
@@ -84,9 +86,21 @@ class Stack:
                 if self.shutdown_mode == "hang":
                     f = loop.create_future(); stack.resolving.append(f)     # kept referenced: the closing never finishes
                     await f
+                if self.shutdown_mode == "deferred":
+                    # the udp6 pattern: close the transport, wait for its connection_lost callback one loop turn later
+                    self._closing = loop.create_future(); loop.call_soon(self._closing.set_result, None)
+                    await self._closing
                 self.down = True
         self.ctx, self.tman, self.mman, _ = simnet.make_stack(loop, Site())
         self.mi = MI(loop); self.mman.message_interface = self.mi
+        self.ifaces = [(self.tman, self.mman, self.mi)]
+        for i in range(1, ifaces):
+            from aiocoap.tokenmanager import TokenManager
+            from aiocoap.messagemanager import MessageManager
+            with loop.enter():
+                tman = TokenManager(self.ctx); mman = MessageManager(tman); mi = MI(loop); mi.idx = i
+                mman.message_interface = mi; tman.token_interface = mman; self.ctx.request_interfaces.append(tman)
+            self.ifaces.append((tman, mman, mi))
         self.shutdown_tasks = []; self.shutdown_returned_at = None
 
     # ---- server side application: one scripted coroutine per incoming request
@@ -111,6 +125,14 @@ class Stack:
                 elif cmd[0] == "raise":
                     from aiocoap import error
                     raise (error.NotFound() if cmd[1] == "NotFound" else RuntimeError("handler failed"))
+                elif cmd[0] == "shutdown":
+                    # eg. an admin resource: the handler itself awaits the shutdown of its own context
+                    try:
+                        await self.ctx.shutdown(); self.log.append(["hshutdown_returned", h])
+                    except asyncio.CancelledError:
+                        st["cancelled"] = True; self.log.append(["hcancel", h])
+                    except Exception as e:
+                        self.log.append(["exc", type(e).__name__])
                 elif cmd[0] == "exit": return
         finally:
             st["done"] = True
@@ -163,7 +185,7 @@ class Stack:
         if obs is not None: m.opt.observe = obs
         raw = m.encode()
         try:
-            simnet.inject(self.loop, self.mman, raw, simnet.Addr(rname))
+            simnet.inject(self.loop, self.ifaces[self.route(rname)][1], raw, simnet.Addr(rname))
         except Exception as e:
             self.log.append(["exc", type(e).__name__]); self.loop.drain()
 
@@ -180,6 +202,33 @@ class Stack:
             self.shutdown_tasks.append(asyncio.ensure_future(self.ctx.shutdown(), loop=self.loop))
         self.loop.drain()
 
+    def turns(self, n):
+        """run n callbacks of the ready queue (finer than an event: everything an event triggers is normally drained)"""
+        for _ in range(n):
+            if not self.loop._ready: break
+            h = self.loop._ready.pop(0)
+            with self.loop.enter():
+                if not h._cancelled: h._run()
+    def shutdown_interleaved(self, kind, n, q=None):
+        """shutdown_cancel: the task awaiting Context.shutdown() is cancelled after n callbacks;
+        shutdown_then_cancel / cancel_then_shutdown: the application cancels request q's response n callbacks after / before it
+        asks for the shutdown, without letting the loop settle in between"""
+        r = self.requests.get(q)
+        def start():
+            with self.loop.enter(): self.shutdown_tasks.append(asyncio.ensure_future(self.ctx.shutdown(), loop=self.loop))
+        def cancel_q():
+            if r is not None and not r.response.done():
+                with self.loop.enter(): r.response.cancel()
+        if kind == "shutdown_cancel":
+            start(); self.turns(n)
+            with self.loop.enter(): self.shutdown_tasks[-1].cancel()
+        elif kind == "shutdown_then_cancel": start(); self.turns(n); cancel_q()
+        else: cancel_q(); self.turns(n); start()
+        self.loop.drain()
+    def state(self):
+        return [{"transport_closed": bool(mi.down), "tm_tables_cleared": tman.outgoing_requests is None and tman.incoming_requests is None,
+                 "mm_cleared": mman._active_exchanges is None} for (tman, mman, mi) in self.ifaces]
+
     # ---- observation of one step
     def owns(self, handle):
         cb = handle._callback; objs = list(handle._args or ())
@@ -187,22 +236,24 @@ class Stack:
         if isinstance(cb, functools.partial):
             objs += list(cb.args); s = getattr(cb.func, "__self__", None)
             if s is not None: objs.append(s)
-        mine = (self.mman, self.tman, self.ctx, self.mman._recent_messages)
+        mine = [self.ctx] + [x for (t, m, i) in self.ifaces for x in (t, m, m._recent_messages)]
         return any(o is x for o in objs for x in mine)
 
     def take(self):
         """outputs since the last call: wire order kept, then application-side outputs"""
         from aiocoap import Message
         out = []
-        for (t, remote, raw) in self.mi.take():
-            m = Message.decode(raw, remote)
-            out.append(["send", remote.name, int(m.mtype), int(m.code), m.mid, tok_int(m.token), m.opt.observe])
+        for (_, _, mi) in self.ifaces:
+            for (t, remote, raw) in mi.take():
+                m = Message.decode(raw, remote)
+                out.append(["send", remote.name, int(m.mtype), int(m.code), m.mid, tok_int(m.token), m.opt.observe])
         app = self.log; self.log = []
         for task in self.shutdown_tasks:
             if task.done() and not getattr(task, "_c18_seen", False):
                 task._c18_seen = True
+                if task.cancelled(): app.append(["shutdown_task_cancelled"]); continue
                 if self.shutdown_returned_at is None: self.shutdown_returned_at = self.loop.now_us()
-                e = None if task.cancelled() else task.exception()
+                e = task.exception()
                 app.append(["shutdown_done"] if e is None else ["exc", type(e).__name__])
         return out + app
 
@@ -234,7 +285,7 @@ class Sim:
         self.probe = _LogProbe(self.logerrs)
         lg = logging.getLogger("coap"); self._old = (lg.level, lg.propagate)
         lg.setLevel(logging.DEBUG); lg.propagate = False; lg.addHandler(self.probe)
-        self.A = Stack(self.loop, "A")
+        self.A = Stack(self.loop, "A", ifaces=inp.get("ifaces", 1), mi_mode=inp.get("mi_mode", "prompt"))
         self.B = Stack(self.loop, "B") if with_bystander else None
         self.b_trace = []; self.b_next = 0; self.exc_seen = 0
         if inp.get("hang"): self.A.mi.shutdown_mode = "hang"
@@ -322,11 +373,13 @@ class Sim:
         elif k == "shutdown":
             if self.shutdown_called_at is None: self.shutdown_called_at = self.loop.now_us()
             A.shutdown()
+        elif k == "hshutdown": A.handler_cmd(ev[1], ("shutdown",))
+        elif k in ("shutdown_cancel", "shutdown_then_cancel", "cancel_then_shutdown"): A.shutdown_interleaved(k, ev[1], ev[2] if len(ev) > 2 else None)
         else: raise ValueError("unknown event %r" % (ev,))
         self.loop.drain(); self._b_collect()
         self.n_orphans += self.orphans()
         out = A.take()
-        if k == "shutdown":
+        if k in ("shutdown", "hshutdown", "shutdown_cancel", "shutdown_then_cancel", "cancel_then_shutdown"):
             for h, st in sorted(A.handlers.items()):
                 if not st["done"] and not st["cancelled"]: out.append(["running_after_shutdown", h])
         for c in self.loop.exceptions[self.exc_seen:]:
@@ -707,6 +760,23 @@ class Two:
 TWO_TEMPLATE = [["get_big"], ["put_sink"], ["observe"], ["get_slow"], ["pump"], ["pump"], ["pump"], ["pump"], ["pump"], ["pump"], ["trigger"], ["pump"], ["pump"],
                 ["adv", 150_000], ["pump"], ["pump"], ["drop"], ["pump"], ["trigger"], ["pump"], ["pump"], ["fire"], ["pump"], ["pump"], ["pump"], ["pump"]]
 
+TURNS_BUSY = [["recv", "p1", CON, GET, 100, 7, None], ["recv", "s1", CON, GET, 400, 8, 0], ["req", 1, "p2", CON, False], ["req", 2, "s2", CON, True],
+              ["recv", "s1", NON, GET, 401, 9, None], ["req", 3, "p2", CON, True], ["adv", 50_000], ["recv", "s2", ACK, CONTENT, 0, 1, 4]]
+def turns_cases(tier, rng):
+    triggers = [["hshutdown", 0], ["hshutdown", 1], ["hshutdown", 2], ["shutdown"]]
+    triggers += [["shutdown_cancel", n] for n in (1, 2, 3, 4, 6)]
+    triggers += [[k, n, q] for k in ("shutdown_then_cancel", "cancel_then_shutdown") for n in (0, 1, 2, 3) for q in (1, 2)]
+    # a handler whose pipe has ended (lingering after its last response) is not cancelled by shutdown: its await of shutdown returns
+    linger = [["respond", 0, CONTENT, True, None, True], ["hshutdown", 0]]
+    after = [["fire"], ["req", 50, "p1", CON, False], ["req", 51, "s1", NON, True], ["respond", 1, CONTENT, True, None], ["respond", 2, CONTENT, False, 3],
+             ["fire"], ["fire"], ["fire"], ["adv", 3_000_000], ["fire"], ["fire"], ["adv", 300_000_000]]
+    for ifaces in (2, 1):
+        for mode in ("deferred", "prompt"):
+            for trig in triggers + [linger]:
+                if tier == "quick" and (mode, ifaces) != ("deferred", 2) and (trig[0] not in ("hshutdown", "shutdown_then_cancel", "shutdown_cancel") or trig[1] not in (0, 1)): continue
+                t = trig if isinstance(trig[0], list) else [trig]
+                yield {"uniform": 2_000_000, "mid0": 0, "tok0": 0, "ifaces": ifaces, "mi_mode": mode, "events": TURNS_BUSY + t + after}
+
 def template_cases(name):
     """shutdown inserted at every position of a busy template"""
     T = TEMPLATES[name]
@@ -722,7 +792,7 @@ class C18(fw.Property):
     coq_props = "Props/C18.v"
     gen_jobs = []
     model_imports = ["Verif.Model.C18"]
-    quick_budget = 420
+    quick_budget = 300
     thorough_budget = 6000
     design_ref = "DESIGN.md section 15 (C18)"
     technique = ("Coq invariant proofs over an executable model of the shutdown slice of the message layer (TokenManager, MessageManager, "
@@ -755,7 +825,9 @@ class C18(fw.Property):
                    "Context.shutdown is called once (a second call raises AttributeError from MessageManager.shutdown: application misuse, validated by the outofscope stream)",
                    "handlers and request callbacks supplied by the application do not themselves raise",
                    "request labels are distinct and fewer than 2^64 tokens are drawn (wf_history)",
-                   "the application does not cancel a request while its remote is still being looked up (not modelled, never generated)"]
+                   "the application does not cancel a request while its remote is still being looked up (not modelled, never generated)",
+                   "model events are atomic (an event and everything it triggers until the ready queue is empty); interleavings inside one loop iteration, shutdown awaited from a handler, "
+                   "cancellation of the awaiting task and several request interfaces are covered by the oracle-only turns stream, not by the theorems"]
 
     # ------------------------------------------------------------------ generation
     def gen_cases(self, tier, rng, n):
@@ -769,21 +841,25 @@ class C18(fw.Property):
                 inp = list(template_cases(name))[k]
                 evs = inp["events"]; i = evs.index(["shutdown"])
                 yield "hung", dict(inp, hang=True, events=evs[:i + 1] + [["adv", 2_999_999], ["adv", 1]] + evs[i + 1:]); count += 1
-        for k in range(len(TWO_TEMPLATE) + 1):
+        for k in range(0, len(TWO_TEMPLATE) + 1, 2 if tier == "quick" else 1):
             for x in ("C", "S"):
                 yield "twoctx", {"who": x, "position": k, "events": TWO_TEMPLATE[:k] + [["shutdown", x]] + TWO_TEMPLATE[k:]}; count += 1
+        # shutdown requested from inside the context's own handler / by a task that is cancelled while it waits / with the application
+        # cancelling a request in the same loop iteration; one or two request interfaces; transport closing at once or one turn later
+        for inp in turns_cases(tier, rng):
+            yield "turns", inp; count += 1
         # events outside the property's scope, to validate what the model (and notes) say about them: datagrams reaching
         # dispatch_message after shutdown (kinds for which no exception has to be propagated through further model code) and a
         # second Context.shutdown()
         for name in TEMPLATES:
             T = TEMPLATES[name]
-            for k in ([len(T) // 2, len(T)] if tier == "quick" else range(len(T) + 1)):
+            for k in ([len(T)] if tier == "quick" else range(len(T) + 1)):
                 late = [rng.choice([["recv", "p1", CON, GET, 900 + j, rng.choice([7, 77]), None], ["recv", "p2", NON, GET, 950 + j, 8, 0],
                                     ["recv", "p1", CON, 0, 970 + j, 0, None], ["recv", "p1", NON, CONTENT, 980 + j, rng.choice([1, 2, 99]), rng.choice([None, 9])]] +
                                    [e for e in T if e[0] == "recv" and 1 <= e[3] < 32]) for j in range(4)]
                 evs = T[:k] + [["shutdown"]] + late[:2] + [["fire"], ["shutdown"], ["fire"]] + late[2:] + [["fire"]] * 6 + [["adv", 300_000_000]]
                 yield "outofscope", {"uniform": 2_000_000, "mid0": 0, "tok0": 0, "template": name, "position": k, "events": evs}; count += 1
-        for _ in range(40 if tier == "quick" else 600):
+        for _ in range(20 if tier == "quick" else 600):
             if True:
                 evs = [[e] for e in ("get_big", "put_sink", "observe", "get_slow") if rng.random() < 0.8]
                 rng.shuffle(evs)
@@ -827,6 +903,7 @@ class C18(fw.Property):
             late, left = s.finish()
             by = "same" if s.b_trace == ref else {"expected": ref, "got": s.b_trace}
             res = {"steps": steps, "late": late, "timers_left": left, "bystander": by, "orphan_timers": s.n_orphans}
+            if stream == "turns": res["ifaces"] = s.A.state()
             if stream == "hung":
                 res["shutdown_took_us"] = None if s.A.shutdown_returned_at is None else s.A.shutdown_returned_at - s.shutdown_called_at
             return res
@@ -848,6 +925,7 @@ class C18(fw.Property):
     # ------------------------------------------------------------------ oracle
     def oracle(self, stream, inp, res):
         if "harness_exception" in res: return ("C18:crash:" + res["where"], "implementation raised %s: %s" % (res["harness_exception"], res.get("text")))
+        if stream == "turns": return self.oracle_turns(inp, res)
         if stream == "outofscope":
             return None      # events the property does not quantify over (see rule): only the model's account of them is compared
         if stream == "twoctx":
@@ -925,7 +1003,47 @@ class C18(fw.Property):
         if res["timers_left"]: return ("C18:timers-left", "%d timers of the shut-down context are still pending 300 s later" % res["timers_left"])
         return lookup_pending
 
+    def oracle_turns(self, inp, res):
+        """after shutdown was requested (and had started), every request interface's shutdown has run to completion, whoever awaited it"""
+        evs = inp["events"]; steps = res["steps"]
+        trig = ("hshutdown", "shutdown", "shutdown_cancel", "shutdown_then_cancel", "cancel_then_shutdown")
+        k = [i for i, e in enumerate(evs) if e[0] in trig][-1]
+        for i, out in enumerate(steps):
+            for o in out:
+                if o[0] == "exc":
+                    if i == k and o[1] == "InvalidStateError" and evs[k][0] in ("shutdown_then_cancel", "cancel_then_shutdown"):
+                        return ("C18:shutdown-raises:InvalidStateError", "Context.shutdown() raised InvalidStateError (%r): shutdown aborted, interfaces %r" % (evs[k], res["ifaces"]))
+                    return ("C18:exception-after-shutdown:" + o[1] if i >= k else "C18:exception-before-shutdown:" + o[1], "step %d (%r) raised %s" % (i, evs[i], o[1]))
+        for o in res["late"]:
+            if o[0] == "exc": return ("C18:exception-after-shutdown:" + o[1], "letting the timers run out raised %s" % o[1])
+        for n, st in enumerate(res["ifaces"]):
+            if not all(st.values()): return ("C18:interface-not-shut-down", "request interface %d after %r: %r" % (n, evs[k], st))
+        for o in steps[k]:
+            if o[0] == "running_after_shutdown": return ("C18:handler-not-cancelled", "handler %d still running after %r" % (o[1], evs[k]))
+        done = {}; observe = {}; obsdone = {}
+        for i, (ev, out) in enumerate(zip(evs, steps)):
+            if ev[0] == "req": observe[ev[1]] = (ev[4], i)
+            for o in out:
+                if o[0] in ("resp", "fail", "cancelled"): done.setdefault(o[1], (i, o))
+                if o[0] in ("obsend", "cancelled") or (o[0] == "resp" and o[3] is None): obsdone.setdefault(o[1], (i, o))
+                if i > k and o[0] == "send": return ("C18:send-after-shutdown", "step %d (%r) put %r on the wire" % (i, ev, o))
+                if i > k and o[0] in ("resp", "notif", "hstart"): return ("C18:activity-after-shutdown", "step %d (%r): %r" % (i, ev, o))
+            if i > k and ev[0] == "req":
+                got = [o for o in out if o[0] == "fail" and o[1] == ev[1]]
+                if not got: return ("C18:late-request-hangs", "request %d submitted after shutdown did not fail at once: %r" % (ev[1], out))
+                if got[0][2] != "LibraryShutdown": return ("C18:late-request-wrong-error", "request %d failed with %s" % (ev[1], got[0][2]))
+        for q, (ob, i) in observe.items():
+            if i > k: continue
+            if q not in done or done[q][0] > k: return ("C18:request-left-hanging", "request %d has no outcome after %r" % (q, evs[k]))
+            if ob and (q not in obsdone or obsdone[q][0] > k): return ("C18:observation-left-hanging", "observation of request %d not ended after %r" % (q, evs[k]))
+            for (j, o) in (done[q], obsdone.get(q, done[q])):
+                if j == k and o[0] in ("fail", "obsend") and not is_library_error(o[2]): return ("C18:not-a-library-error", "request %d ended with %s" % (q, o[2]))
+        if res["timers_left"]: return ("C18:timers-left", "%d timers still pending" % res["timers_left"])
+        return None
+
     def nontrivial(self, stream, inp, res):
+        if stream == "turns":
+            return fw.jdump(inp) if "steps" in res else None
         if stream == "twoctx":
             a = res.get("at_return")
             if not a: return None
